@@ -17,6 +17,9 @@ const (
 	c19D21 = "address/alphanumeric-8k+7-septets-fill-bits-decoded-as-at-sign" // 7 septets: seven fill bits read as a character
 	c19CR8 = "address/alphanumeric-8-septets-ending-in-cr-loses-the-cr"       // the decoder takes the CR for the filler
 	c19D16 = "address/alphanumeric-septet-09-decoded-as-small-c-cedilla"      // GSM 03.38 has capital C cedilla at 0x09
+	// DeliverFlags.ReplyPath / .UDHIndicator read bits 3 / 4, which GSM 03.40 9.2.2.1 leaves unused; TP-RP / TP-UDHI
+	// (bits 7 / 6) are in the fields TPRP / TPUDHI appended by the D24 fix.  TestFlags pins the two old fields there.
+	c19DFl = "deliver/flags/ReplyPath-and-UDHIndicator-fields-hold-unused-bits-3-4"
 )
 
 type c19Segs struct {
@@ -91,6 +94,7 @@ type c19Ctx struct {
 	r       *Run
 	seen    map[string]bool
 	nSample int
+	nLong   int
 }
 
 func (c *c19Ctx) fail(class, what, in, observed, required string) {
@@ -181,6 +185,27 @@ func (c *c19Ctx) cases(in []byte, o smsObs, label, specTerm string) {
 	}
 }
 
+// readers: the same TPDU through readers that hand the octets out in pieces, and followed by more than a
+// bufio buffer of further octets, must decode to the same value; Marshal called twice must write the TPDU twice
+func (c *c19Ctx) readers(in []byte, o smsObs, label string) {
+	label = strings.ReplaceAll(label, " ", "-")
+	key := hex.EncodeToString(in)
+	smsReaderIndependence(c.r, in, o, label, "smsrt "+key)
+	smsMarshalTwice(c.r, o, label, "smsrt "+key, true)
+	c.nLong++
+	if c.nLong%40 == 1 {
+		// trailing octets: a septet-counted TP-UD reads TP-UDL octets, more than the packed data, so the decoded user data
+		// may take in what follows; everything before the user data and the error class must be unaffected
+		long := append(append([]byte{}, in...), make([]byte, 4096+c.r.Rng.Intn(3000))...)
+		o2 := smsRun(long)
+		if o2.Class != o.Class || o2.Name != o.Name || o2.Term != o.Term || !bytes.Equal(o2.Out, o.Out) {
+			c.r.Fail("reader/long-input/"+label, "the TPDU followed by more than 4096 zero octets decodes / re-encodes differently", "smsrt "+key+" + zero octets",
+				fmt.Sprintf("class=%d %s %x", o2.Class, o2.Name, o2.Out), fmt.Sprintf("class=%d %s %x", o.Class, o.Name, o.Out))
+		}
+		smsReaderIndependence(c.r, long, o2, label+"/long-input", "smsrt "+key+" + zero octets")
+	}
+}
+
 func (c *c19Ctx) deliver(t specDeliver, label string) {
 	in := specLayoutDeliver(t)
 	key := hex.EncodeToString(in)
@@ -189,6 +214,7 @@ func (c *c19Ctx) deliver(t specDeliver, label string) {
 	}
 	c.seen[key] = true
 	o := smsRun(in)
+	c.readers(in, o, "deliver/"+label)
 	c.r.Count(key, true, "SMS-DELIVER: "+label)
 	c.cases(in, o, "deliver/"+label, "layout_deliver "+coqSpecDeliver(t))
 	p, ok := o.Packet.(*sms.Deliver)
@@ -197,7 +223,21 @@ func (c *c19Ctx) deliver(t specDeliver, label string) {
 			fmt.Sprintf("class=%d type=%T panic=%s", o.Class, o.Packet, o.PanicMsg), "*sms.Deliver, nil error")
 		return
 	}
-	// values
+	// values: the first octet's parameters under the names the structure gives them (GSM 03.40 9.2.2.1)
+	fl := p.Flags
+	if fl.MessageType != sms.MessageTypeDeliver || fl.MoreMessagesToSend != t.MMS || fl.StatusReportIndication != t.SRI ||
+		fl.TPUDHI != t.UDHI || fl.TPRP != t.RP {
+		c.fail("value/deliver-flags", "decoded first-octet parameters differ from the bits GSM 03.40 9.2.2.1 assigns (TP-MTI, TP-MMS bit 2, TP-SRI bit 5, TP-UDHI bit 6, TP-RP bit 7)", key,
+			fmt.Sprintf("%+v", fl), fmt.Sprintf("MessageType=SMS-DELIVER MoreMessagesToSend=%v StatusReportIndication=%v TPUDHI=%v TPRP=%v", t.MMS, t.SRI, t.UDHI, t.RP))
+	}
+	if fl.ReplyPath != t.RP || fl.UDHIndicator != t.UDHI {
+		class := "value/deliver-flags"
+		if fl.ReplyPath == t.Bit3 && fl.UDHIndicator == t.Bit4 {
+			class = c19DFl // exactly what the listed finding predicts: the two fields show bits 3 and 4
+		}
+		c.fail(class, "DeliverFlags.ReplyPath / .UDHIndicator are not TP-RP (bit 7) / TP-UDHI (bit 6) of the first octet", key,
+			fmt.Sprintf("ReplyPath=%v UDHIndicator=%v", fl.ReplyPath, fl.UDHIndicator), fmt.Sprintf("ReplyPath=%v UDHIndicator=%v", t.RP, t.UDHI))
+	}
 	c.addrCheck("sc-address", p.SCAddress.NPI, p.SCAddress.TON, p.SCAddress.No, t.SC, key)
 	c.addrCheck("originating-address", p.OriginatingAddress.NPI, p.OriginatingAddress.TON, p.OriginatingAddress.No, t.OA, key)
 	if int(p.ProtocolIdentifier) != t.PID || int(p.DataCoding) != t.DCS {
@@ -240,6 +280,7 @@ func (c *c19Ctx) submit(t specSubmit, label string) {
 	}
 	c.seen[key] = true
 	o := smsRun(in)
+	c.readers(in, o, "submit/"+label)
 	c.r.Count(key, true, "SMS-SUBMIT: "+label)
 	c.cases(in, o, "submit/"+label, "layout_submit "+coqSpecSubmit(t))
 	p, ok := o.Packet.(*sms.Submit)
@@ -247,6 +288,11 @@ func (c *c19Ctx) submit(t specSubmit, label string) {
 		c.fail("decode/submit/"+label, "a well-formed SMS-SUBMIT is not decoded to *sms.Submit", key,
 			fmt.Sprintf("class=%d type=%T panic=%s", o.Class, o.Packet, o.PanicMsg), "*sms.Submit, nil error")
 		return
+	}
+	if fl := p.Flags; fl.MessageType != sms.MessageTypeSubmit || fl.RejectDuplicates != t.RD || int(fl.ValidityPeriodFormat) != t.VP.Kind ||
+		fl.StatusReportRequest != t.SRR || fl.UserDataHeaderIndicator != t.UDHI || fl.ReplyPath != t.RP {
+		c.fail("value/submit-flags", "decoded first-octet parameters differ from the bits GSM 03.40 9.2.2.2 assigns (TP-MTI, TP-RD bit 2, TP-VPF bits 3-4, TP-SRR bit 5, TP-UDHI bit 6, TP-RP bit 7)", key,
+			fmt.Sprintf("%+v", fl), fmt.Sprintf("MessageType=SMS-SUBMIT RejectDuplicates=%v ValidityPeriodFormat=%d StatusReportRequest=%v UserDataHeaderIndicator=%v ReplyPath=%v", t.RD, t.VP.Kind, t.SRR, t.UDHI, t.RP))
 	}
 	if int(p.MessageReference) != t.MR {
 		c.fail("value/mr", "message reference differs", key, fmt.Sprint(p.MessageReference), fmt.Sprint(t.MR))
@@ -454,6 +500,20 @@ func corrC19(r *Run) {
 			c.submit(s, fmt.Sprintf("DA %d digits", n))
 		}
 	}
+	// the same address digits under another type-of-address, one after the other in one process (a memo keyed on the
+	// value octets would return the first decoding)
+	for n := 4; n <= 20; n += 3 {
+		a := c19NumAddr(g, n, false)
+		for _, tn := range [][2]int{{1, 1}, {0, 1}, {2, 8}, {1, 1}, {6, 0}} {
+			a.TON, a.NPI = tn[0], tn[1]
+			d := c19BaseDeliver(g)
+			d.OA, d.SC = a, a
+			c.deliver(d, "same digits, other type-of-address")
+			s := c19BaseSubmit(g)
+			s.DA = a
+			c.submit(s, "same digits, other type-of-address")
+		}
+	}
 	for n := 1; n <= 11; n++ {
 		for k := 0; k < r.N(6, 24); k++ {
 			d := c19BaseDeliver(g)
@@ -594,7 +654,7 @@ func corrC19(r *Run) {
 		c.deliver(d, "DCS sweep")
 	}
 	// random combinations of everything (mostly one unusual feature at a time)
-	for i := 0; i < r.N(300, 4000); i++ {
+	for i := 0; i < r.N(230, 3300); i++ {
 		d := c19BaseDeliver(g)
 		s := c19BaseSubmit(g)
 		switch g.Intn(8) {
